@@ -2,7 +2,7 @@
 import common
 import gen_ops
 from props import c01 as base
-from props.c01 import distribution, matches_known, nontrivial   # noqa: F401
+from props.c01 import matches_known, nontrivial   # noqa: F401
 import numpy as np
 import tprog, gen_dag
 from common import fbits, show_floats, show_ints
@@ -26,7 +26,14 @@ RULE = ('per nn op: relu / leaky_relu (any slope) / selu / tanh / sigmoid, softm
         'bce-with-logits, cross-entropy, nll, mse) with 1-3 entries of its first operand beyond the level at which exp over- / underflows, on '
         'both sides, in binary64 (+-710 ... +-800) and in binary32 (+-90 ... +-255; there the implementation runs on float32 leaves and is '
         'compared with the binary64 model at 1e-4 of the value scale): forward AND every gradient, also after a second sweep. '
-        'Every nn op also as a node of a backward history (builder / oracle of C03, see C01).')
+        'Every nn op also as a node of a backward history (builder / oracle of C03, see C01). '
+        'REQUIRES_GRAD MASKS: for every op with several differentiable operands (linear / conv1d / conv2d with and without bias, batch_norm with '
+        'weight and / or bias, mse_loss in both arguments — through the function and through the loss class under every reduction —, and add / '
+        'mul / matmul / addmm / concat / stack) EVERY non-empty subset of the differentiable operands requires grad while the others are '
+        'constants; the flags arrive at creation, by assignment after creation (freezing or thawing), or — through the layer OBJECT that '
+        'holds the operands as nn.Parameter objects — by Module.freeze() / unfreeze() of the layer or of a Sequential around it followed by '
+        'assignments to single parameters (weight frozen and bias trainable, and vice versa); the data operand is a leaf or the result of an '
+        'earlier op (everything upstream frozen); every operand gradient is compared after one sweep and after a second one.')
 EXHAUSTIVE = {'quick': False, 'thorough': False}
 ASSUMPTIONS = base.ASSUMPTIONS + ['relu-family inputs are kept away from the kink, pooling inputs distinct (ties are exercised by the model comparison only)']
 TRUSTED_BASE = base.TRUSTED_BASE
@@ -122,6 +129,237 @@ def far_run(level):
     return run
 
 
+# ---- requires_grad masks -------------------------------------------------------------------------------------------------------
+# ops with several differentiable operands (SynapModel/OpTableDefs.lean `catalogue`): label / probability targets are not differentiable
+MASK_OPS = ['mse_loss', 'linear', 'conv1d', 'conv2d', 'batch_norm', 'add', 'mul', 'matmul', 'addmm', 'concat', 'stack']
+LAYER_OPS = ('linear', 'conv1d', 'conv2d', 'batch_norm')
+MASK_ROUTES = ['birth', 'assign', 'thaw', 'freeze', 'unfreeze', 'seqfreeze']      # the last three: Module.freeze / unfreeze of a layer object
+
+
+def mask_variants(op):
+    """the operand sets of the op: (label, predicate on the generated arguments)"""
+    if op in ('linear', 'conv1d', 'conv2d'):
+        return [('bias', lambda a: int(a[0]) == 1), ('nobias', lambda a: int(a[0]) == 0)]
+    if op == 'batch_norm':
+        return [('gamma+beta', lambda a: int(a[0]) == 1 and int(a[1]) == 1), ('gamma', lambda a: int(a[0]) == 1 and int(a[1]) == 0),
+                ('beta', lambda a: int(a[0]) == 0 and int(a[1]) == 1)]
+    return [('', lambda a: True)]
+
+
+def _layer_ok(op, leaves, args):
+    """can the call be made through a layer object that owns operands 1.. as its parameters?"""
+    if op in ('linear', 'conv1d', 'conv2d'):
+        return True
+    if op == 'batch_norm':      # an affine layer has both parameters; eval mode needs running statistics
+        return int(args[0]) == 1 and int(args[1]) == 1 and (int(args[2]) == 1 or args[4] != '-')
+    return False
+
+
+def mask_case(rng, op, variant, mask, route, xkind, entry='call'):
+    """ONE call of the op in which exactly the operands of `mask` (a tuple of booleans over the float operands) require grad.
+    route: how the flags get there (see MASK_ROUTES); xkind: the first operand is a 'leaf' or 'interior' (clone / neg of the leaf: with
+    its flag off, everything upstream of the call is frozen); entry: 'call' or, for mse_loss, the reduction of the loss class."""
+    gen = gen_ops.gen_basic if op in gen_ops.OPS_BASIC else gen_ops.gen_nn
+    label, pred = variant
+    for _ in range(200):
+        leaves, args = gen(rng, op, False)
+        if not pred(args): continue
+        if op in ('concat', 'stack') and len(leaves) != len(mask): continue
+        break
+    else:
+        return None
+    assert all((lf[3] if len(lf) > 3 else 'f64') == 'f64' for lf in leaves) and len(leaves) == len(mask), (op, label, mask)
+    nl = len(leaves)
+    layer = route in ('freeze', 'unfreeze', 'seqfreeze')
+    if layer and not (_layer_ok(op, leaves, args) and nl > 1):
+        route, layer = 'assign', False
+    params = list(range(1, nl)) if layer else []
+    # flags at creation
+    if route == 'birth': init = list(mask)
+    elif route == 'assign': init = [rng.chance(.7) for _ in mask]
+    elif route == 'thaw': init = [False] * nl
+    elif route == 'unfreeze': init = [mask[0]] + [False] * (nl - 1)
+    else: init = [mask[0]] + [True] * (nl - 1)
+    lines = [gen_dag.leaf_line(lf[0], lf[1], init[k]) + (' @param' if k in params else '') for k, lf in enumerate(leaves)]
+    if layer:
+        lines.append(' '.join(['t layer', op, show_ints(params)] + [str(a) for a in args]))
+        for k in params:
+            lines.append(f"t setrg {k} {int(route == 'unfreeze')} " + (('@' + route) if k == params[0] else '@same'))
+        cur = [init[0]] + [route == 'unfreeze'] * (nl - 1)
+    else:
+        cur = list(init)
+    order = list(range(nl)); rng.shuffle(order)
+    for k in order:
+        if cur[k] != mask[k] or (route == 'assign' and rng.chance(.2)):       # (now and then an assignment that changes nothing)
+            lines.append(f't setrg {k} {int(mask[k])}')
+    P = gen_dag.Prog()
+    for k, lf in enumerate(leaves):
+        P.add_leaf(lf[0], lf[1], bool(mask[k]))
+    x = 0
+    if xkind == 'interior':
+        how = rng.pick(['clone', 'neg'])
+        x = P.add_op(how, [0], [], [leaves[0][0]])[0]
+        lines.append(f't op {how} 0')
+    ins = [x] + list(range(1, nl))
+    if entry == 'call':
+        opline = ' '.join(['t op', op, show_ints(ins)] + [str(a) for a in args]) + (' @layer' if layer else '')
+    else:
+        opline = ' '.join(['t loss', op, entry, str(ins[0]), str(ins[1])])
+    io = run_masked(lines + [opline] + [f't val {len(P.tshape) + k}' for k in range(2)])
+    if io[len(lines)] in ('rejected', 'hidden') or not io[len(lines)].startswith('t'):
+        return None
+    base_id = len(P.tshape)
+    val = io[len(lines) + 1]
+    osh = tuple(leaves[0][0]) if entry != 'call' else tuple(common.parse_ints(val.split('|')[0])) if '|' in val else ()
+    P.add_op(op, ins, list(args), [osh])
+    root = base_id
+    if entry in ('mean', 'sum'):
+        root = P.add_op(entry, [base_id], ['all', 0], [()])[0]
+    rsh = P.tshape[root]
+    g = gen_dag.rand_data(rng, rsh, -2, 2)
+    keep = rng.chance(.5)
+    bw = f"t bw {root} {show_ints(rsh)} {show_floats(g)}"
+    q = [f't grad {k}' for k in range(nl)]
+    lines = lines + [opline, f't val {root}', f't flags {root}', bw] + q + ([] if keep else [f't zero {k}' for k in range(nl) if mask[k]]) + [bw] + q
+    m = ''.join('g' if b else 'c' for b in mask)
+    return {'op': f'{op}/rg-mask', 'kind': 'rgmask', 'P': P, 'root': root, 'g': g, 'keep': keep, 'nl': nl, 'lines': lines, 'malformed': False, 'nout': 1,
+            'leaves': [(lf[0], lf[1], bool(mask[k])) for k, lf in enumerate(leaves)], 'args': args,
+            'mask': {'op': op, 'operands': label, 'mask': m, 'route': route, 'x': xkind, 'entry': entry},
+            'desc': ' ; '.join(lines)[:700]}
+
+
+class MaskExec(tprog.Impl):
+    """`@param` leaves are nn.Parameter objects; a `t layer <op> <params> <args>` line builds the layer OBJECT that owns them (registered
+    through attribute assignment, as a user would write it); `t setrg k v @freeze | @unfreeze | @seqfreeze` is ONE call of Module.freeze() /
+    unfreeze() on the layer (on a Sequential around it), the `@same` lines that follow are its other effects (checked, not executed);
+    `t op … @layer` is the call of the layer object."""
+    def __init__(self):
+        super().__init__()
+        self.layer = None
+
+    def run(self, line):
+        if '@' not in line and not line.startswith('t layer '):
+            return super().run(line)
+        t = line.split(' ')
+        tags = [a[1:] for a in t if a.startswith('@')]
+        clean = ' '.join(a for a in t if not a.startswith('@'))
+        nn = self.nn
+        if t[1] == 'leaf':
+            r = super().run(clean)
+            x = self.ts[-1]
+            if not isinstance(x, nn.Parameter):
+                k = len(self.ts) - 1
+                self.ts[k] = x = nn.Parameter(x.data, requires_grad=x.requires_grad)
+                if tprog.RESET_ROUTES:      # (set by other property modules: the reset objects built at creation must hold the parameter itself)
+                    from synapgrad import optim
+                    self.leaf_opt[k] = optim.SGD([x], lr=0.1)
+                    mm = nn.Module(); mm.register_parameter('w', x); self.leaf_mod[k] = mm
+            return r
+        if t[1] == 'layer':
+            op, ps, args = t[2], [self.ts[k] for k in common.parse_ints(t[3])], t[4:]
+            w = ps[0]; b = ps[1] if len(ps) > 1 else None
+            pair = lambda a: tuple(common.parse_ints(a))
+            if op == 'linear': m = nn.Linear(w.shape[1], w.shape[0], bias=b is not None)
+            elif op == 'conv1d': m = nn.Conv1d(w.shape[1], w.shape[0], w.shape[2], int(args[1]), int(args[2]), int(args[3]), bias=b is not None)
+            elif op == 'conv2d': m = nn.Conv2d(w.shape[1], w.shape[0], (w.shape[2], w.shape[3]), pair(args[1]), pair(args[2]), pair(args[3]), bias=b is not None)
+            elif op == 'batch_norm':
+                track = args[4] != '-'
+                m = (nn.BatchNorm2d if self.ts[0].data.ndim == 4 else nn.BatchNorm1d)(w.shape[0], eps=common.bitsf(args[3]), momentum=0.1, affine=True, track_running_stats=track, dtype=np.float64)
+                if track:
+                    m.running_mean.data = np.array(common.parse_floats(args[4]), dtype=np.float64)
+                    m.running_var.data = np.array(common.parse_floats(args[5]), dtype=np.float64)
+                m.train() if int(args[2]) else m.eval()
+            else: raise KeyError(op)
+            m.weight = w
+            if b is not None: m.bias = b
+            assert [id(p) for p in m.parameters()] == [id(p) for p in ps]
+            self.layer = m
+            return f'{int(self.tm.gradient__)}{int(self.tm.retain_grads__)}'
+        if t[1] == 'setrg':
+            v = bool(int(t[3]))
+            if tags[0] == 'same':
+                assert self.ts[int(t[2])].requires_grad == v
+            else:
+                obj = nn.Sequential(self.layer) if tags[0] == 'seqfreeze' else self.layer
+                (obj.unfreeze if tags[0] == 'unfreeze' else obj.freeze)()
+            return 'ok'
+        return super().run(clean)
+
+    def call_op(self, name, ins, args):
+        if '@layer' in args:
+            return self.layer(self.ts[ins[0]])
+        return super().call_op(name, ins, args)
+
+
+def run_masked(lines):
+    return tprog.run_program(lines, MaskExec)
+
+
+def to_model(line):
+    """the model sees every flag change as `t setrg`; the construction of a layer object is no event of the engine (`t modes`)"""
+    if line.startswith('t layer '): return 't modes'
+    return ' '.join(a for a in line.split(' ') if not a.startswith('@')) if ' @' in line else line
+
+
+def mask_cases(rng, tier, ops=None):
+    """every op x operand set x non-empty subset of the operands, each through `reps` (route, first-operand kind) pairs; mse_loss also through
+    the loss class under every reduction"""
+    import itertools
+    out = []
+    reps = 2 if tier == 'quick' else 12
+    for op in ops or MASK_OPS:
+        for variant in mask_variants(op):
+            sizes = [2, 3] if op in ('concat', 'stack') else [None]
+            for n in sizes:
+                if n is None:
+                    n = {'mse_loss': 2, 'add': 2, 'mul': 2, 'matmul': 2, 'addmm': 3}.get(op) or \
+                        (3 if variant[0] in ('bias', 'gamma+beta') else 2)
+                for mask in itertools.product([False, True], repeat=n):
+                    if not any(mask): continue
+                    for r in range(reps * (2 if op == 'mse_loss' else 1)):
+                        layer_first = op in LAYER_OPS and r == 0
+                        route = rng.pick(MASK_ROUTES[3:]) if layer_first else rng.pick(MASK_ROUTES[:3] if op not in LAYER_OPS else MASK_ROUTES)
+                        entry = ['call', 'none', 'mean', 'sum'][r % 4] if op == 'mse_loss' else 'call'
+                        c = mask_case(rng, op, variant, mask, route, rng.pick(['leaf', 'leaf', 'interior']), entry)
+                        if c: out.append(c)
+    return out
+
+
+def mask_oracle(c):
+    """finite differences of the implementation's own forward against the gradients it leaves in the operands after the first sweep and
+    after the second one (which adds to the first unless the operands were zeroed in between)"""
+    from props import c03
+    if c03.fd_blind(c['P']): return None
+    io = run_masked(c['lines'])
+    nl = c['nl']
+    bws = [k for k, l in enumerate(c['lines']) if l.startswith('t bw')]
+    key = {'op': c['mask']['op'], 'rg_mask': True}
+    cc = {k: v for k, v in c.items() if k in ('op', 'kind', 'root', 'g', 'keep', 'nl', 'lines', 'mask', 'leaves', 'args')}
+    cc['nodes'] = c['P'].nodes; cc['tshape'] = c['P'].tshape
+    if any(io[k] == 'rejected' for k in bws):
+        return {'key': dict(key, cls='backward-raises'), 'case': cc, 'what': f"{c['mask']}: forward accepted, result requires grad, backward raised"}
+    num = c03.fd_grads(c['P'], c['root'], c['g'])
+    for sweep, at in enumerate(bws):
+        f = 2 if (sweep == 1 and c['keep']) else 1
+        for k in range(nl):
+            if k not in num: continue
+            s = io[at + 1 + k]
+            got = np.zeros(len(num[k])) if s in ('-', 'rejected', 'hidden') else tprog.parse_arr(s).ravel()
+            if c03.far_apart(got, num[k] * f, 5e-5):
+                return {'key': dict(key, cls='gradient'), 'case': cc,
+                        'what': f"{c['mask']}: operand {k} (requires grad) holds {got.tolist()} after sweep {sweep + 1}"
+                                f"{' (added to the first)' if f == 2 else ''}; finite differences of the forward give {(num[k] * f).tolist()}"}
+    return None
+
+
+def _mask_fix(d):
+    P = gen_dag.Prog()
+    for nd in d['nodes']:
+        if nd['kind'] == 'leaf': P.add_leaf(tuple(nd['shape']), nd['data'], nd['rg'], nd.get('dt', 'f64'))
+        else: P.add_op(nd['name'], nd['ins'], nd['args'], [tuple(d['tshape'][o]) for o in nd['outs']])
+    return dict(d, P=P, kind='rgmask')
+
+
 FORMULA_THEOREMS = ['src_relu_vjp', 'src_relu_subgradient_at_kink', 'src_leaky_relu_vjp', 'src_selu_vjp', 'src_tanh_vjp', 'src_sigmoid_vjp', 'src_mse_vjp',
                     'src_bce_vjp', 'src_bce_logits_vjp_within_eps', 'model_applies_src_relu', 'model_applies_src_leaky_relu', 'model_applies_src_selu',
                     'model_applies_src_tanh', 'model_applies_src_sigmoid', 'model_applies_src_mse', 'model_scalars_are_src_bce']
@@ -169,7 +407,24 @@ def cases(rng, tier):
                 c['order'] = c['P'].topo_shuffle(rng)
                 c.update({'op': op + '/history', 'nout': 1, 'malformed': False, 'leaves': [((), [0.0], True)], 'args': []})
                 out.append(c)
+    # every non-empty subset of the differentiable operands of every multi-operand op requires grad, the others are constants
+    out += mask_cases(rng, tier)
     return out
+
+
+def distribution(cases):
+    d = base.distribution(cases)
+    mk = [c['mask'] for c in cases if c.get('kind') == 'rgmask']
+    d['requires_grad masks: cases'] = len(mk)
+    per = {}
+    for m in mk:
+        for k in (f"rg-mask/route={m['route']}", f"rg-mask/first operand={m['x']}", f"rg-mask/entry={m['entry']}"):
+            d[k] = d.get(k, 0) + 1
+        q = per.setdefault(f"rg-mask/{m['op']}{'/' + m['operands'] if m['operands'] else ''} (g: requires grad, c: constant)", {})
+        q[m['mask']] = q.get(m['mask'], 0) + 1
+    for k, q in per.items():
+        d[k] = ' '.join(f'{m}={n}' for m, n in sorted(q.items()))
+    return d
 
 
 def compare(c, mo, io):
@@ -185,6 +440,8 @@ def impl(c):
         return tprog.run_program(c['lines'])
     if c.get('kind') == 'far':
         return far_run(c['level'])(c['lines'])
+    if c.get('kind') == 'rgmask':
+        return run_masked(c['lines'])
     if c.get('kind') == 'bnseq':
         im = BNExec(); im.momentum = c['mom']
         try:
@@ -199,6 +456,8 @@ def oracle(c):
         return None
     if c.get('kind') == 'hist':
         return base.oracle(c)
+    if c.get('kind') == 'rgmask':
+        return mask_oracle(c)
     if c.get('kind') == 'fanout':
         from props import c03
         f = c03.oracle(c)
@@ -240,6 +499,8 @@ def rerun_known(k):
     if k['witness'].get('kind') == 'formula-pair': return formula_cases.replay_pair(k['witness'])['fails']
     return oracle(_fix(k['witness'])) is not None
 def _fix(c):
+    if c.get('kind') == 'rgmask':
+        return _mask_fix(c)
     if c.get('kind') == 'fanout':
         from props import c03
         d = c03._unstrip(c); d['kind'] = 'fanout'
@@ -262,3 +523,6 @@ def search(rng, tier):
             c = base.finish(base.build(rng, op, False, gen_ops.gen_nn), rng)
             f = oracle(c)
             if f: yield f
+    for c in mask_cases(rng, 'quick', [op for op in MASK_OPS if op in gen_ops.OPS_NN]):
+        f = oracle(c)
+        if f: yield f
